@@ -69,12 +69,12 @@ Definition f32_cfg (v : variant) (dry : bool) : cfg :=
 
 Definition all_fixed_but (f : variant -> variant) : variant := f fixed.
 Definition no_backlog_chdir : variant :=
-  {| v_lexists_guard := true; v_recheck_after_mkdir := true; v_backlog_chdir := false; v_dry_abs_keys := true; v_component_containment := true; v_dest_parent_containment := true |}.
+  {| v_lexists_guard := true; v_recheck_after_mkdir := true; v_backlog_chdir := false; v_dry_abs_keys := true; v_component_containment := true; v_dest_parent_containment := true; v_backlog_recheck := false |}.
 Definition relative_dry_keys : variant :=
-  {| v_lexists_guard := true; v_recheck_after_mkdir := true; v_backlog_chdir := true; v_dry_abs_keys := false; v_component_containment := true; v_dest_parent_containment := true |}.
+  {| v_lexists_guard := true; v_recheck_after_mkdir := true; v_backlog_chdir := true; v_dry_abs_keys := false; v_component_containment := true; v_dest_parent_containment := true; v_backlog_recheck := false |}.
 (* the code before F8 was repaired; it had no test on the directory of the destination entry either (F34 came later),
    and that test is component-wise: with it the look-alike sibling would be refused all the same *)
 Definition string_prefix_containment : variant :=
-  {| v_lexists_guard := true; v_recheck_after_mkdir := true; v_backlog_chdir := true; v_dry_abs_keys := true; v_component_containment := false; v_dest_parent_containment := false |}.
+  {| v_lexists_guard := true; v_recheck_after_mkdir := true; v_backlog_chdir := true; v_dry_abs_keys := true; v_component_containment := false; v_dest_parent_containment := false; v_backlog_recheck := false |}.
 
 Definition find (s : fs) (p : list str) : option node := lookup s p.
